@@ -264,11 +264,14 @@ Definition next (o : xopts) (s : xstate) : xres :=
           end
       end
     else
-      (* text up to the next '<' (at most max_text bytes before the limit check fails) *)
-      let '(txt, r) := take_while (fun b => negb (b =? 60)) l in
-      if max_text o <? lenN txt then XErr (cur + max_text o)
-      else XTok (tok_at KText [] txt [] (x_depth s) start 0 cur)
-                (produced s r (cur + lenN txt) (x_depth s) (x_stack s))
+      (* text up to the next '<' (at most max_text bytes before the limit check fails).  Since the repair of C14-F1 the
+         white space that begins a text node belongs to the text: skipWhitespaceOutsideText rewinds when non-space
+         text follows, so the text starts where the parser stood before the skip. *)
+      let cur0 := x_cur s in
+      let '(txt, r) := take_while (fun b => negb (b =? 60)) (x_rest s) in
+      if max_text o <? lenN txt then XErr (cur0 + max_text o)
+      else XTok (tok_at KText [] txt [] (x_depth s) cur0 0 cur0)
+                (produced s r (cur0 + lenN txt) (x_depth s) (x_stack s))
   end.
 
 Definition x_init (input : list N) : xstate := mkX input 0 0 [] 0.
